@@ -1027,7 +1027,7 @@ macro_rules! lf_bitmap1 {
 }
 // bound: leios-fetch, the two transitions that clone / drop a Bitmaps selector, with a one-entry BTreeMap {k: v}, k any u16, v any u64, other payloads one element; unwind 4
 lf_bitmap1!(c24_t_leiosfetch_bitmap1_request, 0, 2);
-lf_bitmap1!(c24_t_leiosfetch_bitmap1_blocktxs, 4, 3);
+lf_bitmap1!(c24_x_leiosfetch_bitmap1_blocktxs, 4, 3);
 
 // ---------------------------------------------------------------------------------------------
 // handshake (HashMap-free part): Accept / Refuse messages
